@@ -1,4 +1,5 @@
 import PdfVerif.Props.C13ccd
+import PdfVerif.Props.C12ccf
 /-!
 # C13 (part 5) — `SetMapping` on a file with a parent chain
 -/
@@ -7,83 +8,12 @@ open PdfVerif PdfVerif.CC PdfVerif.C13cc PdfVerif.C13ccb
 
 /-! ## `SetMapping` on a file with parents -/
 
-/-- what the file itself (without parents and notdef entries) answers -/
-def ownLookup (f : CMapFile) (bytes : Bytes) : Option Nat :=
-  match findSingle bytes f.singles with
-  | some v => some v
-  | none => findRange bytes f.ranges
-
-theorem lookupCID_cons (f : CMapFile) (parents : Chain) (bytes : Bytes) :
-    lookupCID (f :: parents) bytes =
-      match ownLookup f bytes with
-      | some v => v
-      | none => match parents with
-        | _ :: _ => lookupCID parents bytes
-        | [] => lookupNotdef [f] bytes := by
-  simp only [lookupCID, ownLookup]
-  cases findSingle bytes f.singles with
-  | some v => rfl
-  | none =>
-    simp only
-    cases findRange bytes f.ranges with
-    | some v => rfl
-    | none => cases parents <;> rfl
-
-theorem own_of_entries (f : CMapFile) (es : List (Entry Nat)) (hes : EntriesOK es)
-    (hfun : ∀ e ∈ es, ∀ e' ∈ es, e.key ++ [e.x] = e'.key ++ [e'.x] → e.val = e'.val)
-    (hs : f.singles = lefts (outOf es)) (hr : f.ranges = rights (outOf es)) :
-    (∀ e ∈ es, ownLookup f (e.key ++ [e.x]) = some e.val) ∧
-    (∀ bytes, (∀ e ∈ es, bytes ≠ e.key ++ [e.x]) → ownLookup f bytes = none) := by
-  have hsingle : ∀ bytes v, findSingle bytes f.singles = some v → ∃ e ∈ es, bytes = e.key ++ [e.x] ∧ v = e.val := by
-    intro bytes v h
-    obtain ⟨s, hs', h1, h2⟩ := findSingle_some bytes _ v h
-    rw [hs, mem_lefts] at hs'
-    exact out_sound es hes _ hs' bytes v ⟨h1, h2⟩
-  have hrange : ∀ bytes v, findRange bytes f.ranges = some v → ∃ e ∈ es, bytes = e.key ++ [e.x] ∧ v = e.val := by
-    intro bytes v h
-    obtain ⟨r, hr', i, h1, h2⟩ := findRange_some bytes _ v h
-    rw [hr, mem_rights] at hr'
-    exact out_sound es hes _ hr' bytes v ⟨i, h1, h2⟩
-  constructor
-  · intro e he
-    simp only [ownLookup]
-    cases h1 : findSingle (e.key ++ [e.x]) f.singles with
-    | some v =>
-      obtain ⟨e', he', h2, h3⟩ := hsingle _ v h1
-      simp only; rw [h3, hfun e he e' he' h2]
-    | none =>
-      simp only
-      cases h2 : findRange (e.key ++ [e.x]) f.ranges with
-      | some v =>
-        obtain ⟨e', he', h3, h4⟩ := hrange _ v h2
-        rw [h4, hfun e he e' he' h3]
-      | none =>
-        exfalso
-        obtain ⟨item, hi, hc⟩ := out_complete es hes e he
-        cases item with
-        | inl s =>
-          have := findSingle_none _ _ h1 s (by rw [hs, mem_lefts]; exact hi)
-          exact this hc.1
-        | inr r =>
-          obtain ⟨i, hi', _⟩ := hc
-          have := findRange_none _ _ h2 r (by rw [hr, mem_rights]; exact hi)
-          rw [this] at hi'; cases hi'
-  · intro bytes hno
-    simp only [ownLookup]
-    cases h1 : findSingle bytes f.singles with
-    | some v => obtain ⟨e, he, h2, _⟩ := hsingle _ v h1; exact absurd h2 (hno e he)
-    | none =>
-      simp only
-      cases h2 : findRange bytes f.ranges with
-      | some v => obtain ⟨e, he, h3, _⟩ := hrange _ v h2; exact absurd h3 (hno e he)
-      | none => rfl
-
 /-- the entries kept by the first loop of `SetMapping` when there are parents -/
 theorem cidEntries_spec_parents (codec : Codec) (parents : Chain) : ∀ (data : List (Nat × Nat)) (es : List (Entry Nat)),
     cidEntries codec parents data = .ok es →
     (∀ e ∈ es, ∃ p ∈ data, codec.appendCode p.1 = .ok (e.key ++ [e.x]) ∧ e.val = p.2) ∧
     (∀ p ∈ data, ∃ bs, codec.appendCode p.1 = .ok bs ∧
-        ((parents ≠ [] ∧ lookupCID parents bs = p.2) ∨ ∃ e ∈ es, bs = e.key ++ [e.x] ∧ e.val = p.2)) := by
+        ((parents ≠ [] ∧ lookupMapped parents bs = some p.2) ∨ ∃ e ∈ es, bs = e.key ++ [e.x] ∧ e.val = p.2)) := by
   intro data
   induction data with
   | nil => intro es h; simp [cidEntries] at h; subst h; simp
@@ -128,9 +58,10 @@ theorem cidEntries_spec_parents (codec : Codec) (parents : Chain) : ∀ (data : 
                 · exact .inl h2
                 · exact .inr ⟨e, by simp [he], h3⟩
 
-/-- **`lookup_setMapping` with parents.**  For a file with a parent chain, `SetMapping` leaves out
-the entries the parents already answer; `LookupCID` on the chain still returns the mapped CID
-for every mapped code, and the parents' answer for every other byte string. -/
+/-- **`lookup_setMapping` with parents** (full statement, no side condition; true since the fixes
+5f29395 and e336336).  `SetMapping` leaves out exactly the entries for which a parent has a
+*mapping* with the same CID; `LookupCID` on the chain returns the mapped CID for every mapped code,
+and for every other byte string the chain's answer without this file's mappings. -/
 theorem lookup_setMapping_parents (f f' : CMapFile) (parents : Chain) (codec : Codec) (data : List (Nat × Nat))
     (h : setMapping f parents codec data = .ok f')
     (hcid : ∀ p ∈ data, p.2 < 4294967296)
@@ -159,19 +90,15 @@ theorem lookup_setMapping_parents (f f' : CMapFile) (parents : Chain) (codec : C
         rw [h2, h4]
         exact hfun p hp q hq (by rw [h1, h3, heq])
       obtain ⟨l1, l2⟩ := own_of_entries f' es hok hfun' (by rw [← h]; rfl) (by rw [← h]; rfl)
-      have hnotdef : ∀ bs, lookupNotdef [f'] bs = lookupNotdef [{ f' with singles := [], ranges := [] }] bs := by
-        intro bs; simp [lookupNotdef]
       constructor
       · intro p hp
         obtain ⟨bs, h1, h2⟩ := i2 p hp
         refine ⟨bs, h1, ?_⟩
         rw [lookupCID_cons]
-        rcases h2 with ⟨hne, hpar⟩ | ⟨e, he, h3, h4⟩
-        · -- left out: either another entry with the same bytes (same CID) or the parents answer
-          cases hown : ownLookup f' bs with
+        rcases h2 with ⟨_, hpar⟩ | ⟨e, he, h3, h4⟩
+        · cases hown : ownLookup f' bs with
           | some v =>
             simp only
-            -- some kept entry has these bytes
             by_cases hex : ∃ e ∈ es, bs = e.key ++ [e.x]
             · obtain ⟨e, he, hbe⟩ := hex
               rw [hbe, l1 e he] at hown
@@ -181,11 +108,7 @@ theorem lookup_setMapping_parents (f f' : CMapFile) (parents : Chain) (codec : C
               exact hfun q hq p hp (by rw [q1, h1, hbe])
             · have := l2 bs (fun e he heq => hex ⟨e, he, heq⟩)
               rw [this] at hown; cases hown
-          | none =>
-            simp only
-            cases parents with
-            | nil => exact absurd rfl hne
-            | cons g gs => exact hpar
+          | none => simp only [hpar]
         · rw [h3, l1 e he]; exact h4
       · intro bs hno
         rw [lookupCID_cons, lookupCID_cons]
@@ -195,9 +118,28 @@ theorem lookup_setMapping_parents (f f' : CMapFile) (parents : Chain) (codec : C
           obtain ⟨p, hp, h1, _⟩ := i1 e he
           exact hno p hp (by rw [h1, heq])
         rw [this]
-        simp only [ownLookup, findSingle, findRange]
-        cases parents with
-        | nil => exact hnotdef bs
-        | cons g gs => rfl
+        simp only [ownLookup, findSingle, findRange, lookupNotdef]
+
+/-! The former witness of D30b (parent notdef `<00>-<FF> → 2`, child notdef `<16> → 7`, data
+`{0x16 ↦ 2}`; before e336336 nothing was stored and `LookupCID(<16>)` was 7): the entry is now kept
+and the lookup returns 2.  Replayed against the real code on every run (`cmFixed`). -/
+
+def witnessParent : CMapFile := ⟨[], [], [], [], [⟨[0], [255], 2⟩]⟩
+def witnessChild : CMapFile := ⟨[], [], [], [⟨[0x16], 7⟩], []⟩
+def witnessCodec : Codec := ⟨[⟨255, 0⟩]⟩
+
+theorem witnessCodec_csr : witnessCodec.codeSpaceRange = .ok [⟨[0], [255]⟩] := by
+  have : walk [⟨255, 0⟩] 5 1 [] 0 [] [] 0 = .ok [⟨[0], [255]⟩] := by
+    rw [C12ccf.walk_succ]
+    simp [C12ccf.walkChild, Gen.cc_validLeaf]
+  simp only [Codec.codeSpaceRange, witnessCodec, List.length_cons, List.length_nil, this]
+  rfl
+
+theorem witness_setMapping :
+    ∃ f', setMapping witnessChild [witnessParent] witnessCodec [(0x16, 2)] = .ok f' ∧
+      f'.singles = [⟨[0x16], 2⟩] ∧ lookupCID (f' :: [witnessParent]) [0x16] = 2 := by
+  have he : cidEntries witnessCodec [witnessParent] [(0x16, 2)] = .ok [⟨[], 0x16, 2⟩] := by rfl
+  simp only [setMapping, witnessCodec_csr, he]
+  exact ⟨_, rfl, by decide +kernel, by decide +kernel⟩
 
 end PdfVerif.C13cce
